@@ -345,6 +345,9 @@ http_sconn_error(http_sconn *sc, nng_http_status err)
 		nni_http_set_static_header(
 		    sc->conn, &sc->close_header, "Connection", "close");
 	}
+	if (strcmp(nni_http_get_method(sc->conn), "HEAD") == 0) {
+		nni_http_prune_body(sc->conn);
+	}
 	nni_http_write_res(sc->conn, &sc->txaio);
 }
 
@@ -662,11 +665,9 @@ http_sconn_cbdone(void *arg)
 		return;
 	}
 	if (!nni_http_res_sent(sc->conn)) {
-		const char     *val;
-		const char     *method;
-		nng_http_status status;
+		const char *val;
+		const char *method;
 		val    = nni_http_get_header(sc->conn, "Connection");
-		status = nni_http_get_status(sc->conn);
 		method = nni_http_get_method(sc->conn);
 		if ((val != NULL) && (strstr(val, "close") != NULL)) {
 			sc->close = true;
@@ -674,12 +675,14 @@ http_sconn_cbdone(void *arg)
 		if (sc->close) {
 			nni_http_set_header(sc->conn, "Connection", "close");
 		}
-		if ((strcmp(method, "HEAD") == 0) && status >= 200 &&
-		    status <= 299) {
-			// prune off data, preserving content-length header.
-			nni_http_prune_body(sc->conn);
-		} else if (nni_http_is_error(sc->conn)) {
+		if (nni_http_is_error(sc->conn)) {
 			(void) nni_http_server_error(s, sc->conn);
+		}
+		if (strcmp(method, "HEAD") == 0) {
+			// prune off data, preserving content-length header.
+			// (A response to HEAD never has a body, whatever
+			// its status.)
+			nni_http_prune_body(sc->conn);
 		}
 		nni_http_write_res(sc->conn, &sc->txaio);
 	} else if (sc->close) {
